@@ -145,6 +145,9 @@ func GenProject(t *rapid.T, pr Profile) *sc.Scenario {
 		if pr.ShutdownCfg {
 			if pct(t, 15, "shutcmd") {
 				p.ShutdownCmd = "true"
+				if pct(t, 30, "shutcmd+timeout") {
+					p.ShutdownTimeout = 1 // the time limit of the command, not a kill timer
+				}
 			} else if pct(t, 6, "shuttimeout") {
 				p.ShutdownTimeout = 1
 			}
